@@ -281,6 +281,18 @@ fn main() {
             .and_then(|w| w.rsplit_once("-cap"))
             .and_then(|(_, c)| c.parse().ok())
             .unwrap_or(0);
+        // "w1-small-<index>-<persona>-worn<N>-cap<M>": the priming is regenerated from (seed, index)
+        let worn: (u32, u64) = meta
+            .get("workload")
+            .map(|w| {
+                let parts: Vec<&str> = w.split('-').collect();
+                let n = parts.iter().find_map(|p| p.strip_prefix("worn").and_then(|x| x.parse().ok())).unwrap_or(0);
+                let idx = parts.get(2).and_then(|x| x.parse().ok()).unwrap_or(0);
+                (n, idx)
+            })
+            .unwrap_or((0, 0));
+        let rseed_for_replay: u64 = meta.get("seed").and_then(|s| s.parse().ok()).unwrap_or(seed);
+        let ctx = Ctx { seed: rseed_for_replay, ..ctx.clone() };
         let v = if meta.get("workload").map_or(false, |w| w.starts_with("w3-")) {
             // churn histories are regenerated from their parameters
             let w = meta.get("workload").unwrap();
@@ -293,18 +305,18 @@ fn main() {
             run_w3(&ctx, slots, cycles, sub, &mut cov)
         } else {
             match prop {
-                "C08" => replay_ops::<Tok>(&ctx, &ops, cap0, &mut cov, true, &mut NoHook),
-                "C14" => replay_ops::<Txt>(&ctx, &ops, cap0, &mut cov, false, &mut PrettyHook { shapes: HashSet::new() }),
+                "C08" => replay_ops::<Tok>(&ctx, &ops, cap0, worn, &mut cov, true, &mut NoHook),
+                "C14" => replay_ops::<Txt>(&ctx, &ops, cap0, worn, &mut cov, false, &mut PrettyHook { shapes: HashSet::new() }),
                 #[cfg(feature = "deser")]
                 "C16" => {
-                    let a = replay_ops::<Plain>(&ctx, &ops, cap0, &mut cov, false, &mut ixv::special::SerdeHook { shadows: Vec::new() });
+                    let a = replay_ops::<Plain>(&ctx, &ops, cap0, worn, &mut cov, false, &mut ixv::special::SerdeHook { shadows: Vec::new() });
                     if a.is_some() {
                         a
                     } else {
-                        replay_ops::<u64>(&ctx, &ops, cap0, &mut cov, false, &mut ixv::special::SerdeHook { shadows: Vec::new() })
+                        replay_ops::<u64>(&ctx, &ops, cap0, worn, &mut cov, false, &mut ixv::special::SerdeHook { shadows: Vec::new() })
                     }
                 }
-                _ => replay_ops::<Plain>(&ctx, &ops, cap0, &mut cov, false, &mut NoHook),
+                _ => replay_ops::<Plain>(&ctx, &ops, cap0, worn, &mut cov, false, &mut NoHook),
             }
         };
         match v {
